@@ -155,7 +155,7 @@ def run(tw, tier, seed, only=None):
             samples.append({"host": gen.graph_desc(h), "pattern": gen.graph_desc(p)})
         if len(fails) > 40:
             break
-    return {"cases": cases, "nontrivial": nontriv, "failures": fails[:40], "samples": samples, "exhaustive": False,
+    return {"cases": cases, "nontrivial": nontriv, "failures": fails, "samples": samples, "exhaustive": False,
             "evaluations": tw.evaluations,
             "bound": "%d host x pattern pairs from the enumeration of labelled graphs (hosts <= %d atoms, patterns <= %d; 2 elements x 2 orders x hcount 0/1; sampled) "
                      "incl. disjoint unions; strategies all/comp/bt x max_results None/1/2 x threshold None/0/1/3" % (cases, 3 if tier == "quick" else 4, 2 if tier == "quick" else 3),
